@@ -1093,6 +1093,83 @@ def preface_split(port, cuts, gap=0.06, wait=8.0):
 PREFACE_CUTS = [[1], [9], [17], [18], [19], [21], [23], [24], [25], [33], [18, 24], [10, 20, 30]]
 
 
+# ---- response header blocks whose encoded size sits exactly on a multiple of the peer's SETTINGS_MAX_FRAME_SIZE
+# (third wave, C05-c1): the size of the block is driven from the client through a redirect whose Location repeats
+# parts of the request path; the trace is judged by `monitor` (incl. "header block never terminated")
+HB_CONF = CONF + ('url.redirect = ( "^/r/(X*)/(Z*)$" => "/t/$1$1$1$1$2", '
+                  '"^/s/(X*)/(Z*)$" => "/t/$1$1$1$1$1$1$1$1$2" )\n')
+
+
+def hb_probe(port, path):
+    c = e2e.H2Conn(port)
+    try:
+        c.request(1, "GET", path)
+        c.pump(3.0, until=lambda fr: any(t in (1, 9) and sid == 1 and fl & 4 for t, fl, sid, pl in fr))
+        c.send(e2e.h2_frame(6, 0, 0, b"hbprobe!"))
+        c.pump(2.0, until=lambda fr: any(t == 6 and fl & 1 for t, fl, sid, pl in fr))
+        frames = list(c.frames)
+    finally:
+        c.close()
+    return sum(len(pl) for t, fl, sid, pl in frames if t in (1, 9) and sid == 1), frames
+
+
+def hdrblock_stream(ctx, bd):
+    t0 = time.time()
+    srv = e2e.Server(bd, HB_CONF, modules=("mod_redirect",))
+    reached, cases, hits = [], 0, 0
+    try:
+        with srv:
+            for prefix, mult, target in (("/r/", 4, 16384), ("/s/", 8, 32768), ("/s/", 8, 16384), ("/r/", 4, 8192)):
+                n1 = (target - 300) // mult
+                l0, _ = hb_probe(srv.port, prefix + "X" * n1 + "/")
+                if l0 == 0 or l0 > target:
+                    ctx.notes.append("header-block sweep: no usable base block for target %d (got %d)" % (target, l0))
+                    continue
+                n2 = target - l0
+                tried = set()
+                for _ in range(6):
+                    if n2 < 0 or n2 in tried:
+                        break
+                    tried.add(n2)
+                    l, _ = hb_probe(srv.port, prefix + "X" * n1 + "/" + "Z" * n2)
+                    if l == target or l == 0:
+                        break
+                    n2 += target - l
+                for d in (-2, -1, 0, 1, 2):
+                    if n2 + d < 0:
+                        continue
+                    path = prefix + "X" * n1 + "/" + "Z" * (n2 + d)
+                    l, frames = hb_probe(srv.port, path)
+                    cases += 1
+                    ctx.evaluations += 1
+                    v = monitor([[]], [frames], raw=True)
+                    if v is None and not any(t in (1, 9) and sid == 1 and fl & 4 for t, fl, sid, pl in frames) \
+                            and any(t == 1 and sid == 1 for t, fl, sid, pl in frames):
+                        v = "response header block of stream 1 never terminated by END_HEADERS"
+                    if l == target:
+                        reached.append(target)
+                    ctx.keys["hdrblock:%d:%s:%s" % (target, "exact" if l == target else ("%+d" % (l - target) if abs(l - target) < 4 else "off"),
+                                                   "ok" if v is None else sig_of(v)[:30])] += 1
+                    ctx.dist["hdrblock:target-%d" % target] += 1
+                    if v:
+                        hits += 1
+                        ctx.violation("oracle:h2-hdrblock:%s" % sig_of(v), "response header block of %d octets (peer max frame size 16384): %s" % (l, v),
+                                      {"property": ctx.pid, "kind": "property-oracle", "correspondence": "e2e-h2-hdrblock",
+                                       "input": "GET %s%s/%s  (X x %d, Z x %d)" % (prefix, "X..", "Z..", n1, n2 + d), "block_octets": l,
+                                       "frames": [[t, fl, sid, len(pl)] for t, fl, sid, pl in frames][:20], "oracle_verdict": v}, found=True)
+            rep = srv.sanitizer_report()
+            if rep or not srv.alive():
+                ctx.violation("crash:e2e:h2-hdrblock", "server crashed / sanitizer report in the header-block size sweep",
+                              {"property": ctx.pid, "kind": "sanitizer-or-crash", "correspondence": "e2e-h2-hdrblock",
+                               "input": "hdrblock sweep", "stderr": (rep or srv.logs())[-3000:]}, found=True)
+    except (OSError, RuntimeError) as ex:
+        ctx.notes.append("header-block sweep skipped (infrastructure): %s" % str(ex)[-200:])
+        return
+    ctx.notes.append("header-block sweep: encoded block sizes hit exactly: %s" % sorted(set(reached)))
+    ctx.streams.append({"name": "e2e-h2-hdrblock(response header block sized to k x SETTINGS_MAX_FRAME_SIZE via redirect Location)",
+                        "cases": cases, "disagreements": 0, "oracle_hits": hits, "wall_s": round(time.time() - t0, 2)})
+
+
 def run(ctx):
     # byte level, in-process: every read segmentation (fast; first)
     import sys
@@ -1102,6 +1179,7 @@ def run(ctx):
     if bd is None:
         ctx.broken.append({"kind": "server-build", "names": ["lighttpd"], "log": err[-3000:]})
         return
+    hdrblock_stream(ctx, bd)
     srv = e2e.Server(bd, CONF, modules=())
     setup_docroot(srv)
     t0 = time.time()
